@@ -1,14 +1,13 @@
 package gen
 
 import (
-	"strings"
 	"encoding/json"
 	"fmt"
 	"sort"
+	"strings"
 
 	"goa.design/goa/v3/verifsim"
 	"verif/sim/spec"
-
 )
 
 // GenDesign draws a design spec inside the stage-1 envelope (DESIGN.md 4.1).
@@ -20,13 +19,13 @@ var primKinds = []string{spec.String, spec.Int, spec.Boolean, spec.Int64, spec.F
 var cookieFormats = []string{"date", "uuid", "ipv4", "mac", "email"}
 
 type dgen struct {
-	t     *verifsim.Tape
-	d     *spec.Design
-	feats map[string]bool
-	seq   int
+	t           *verifsim.Tape
+	d           *spec.Design
+	feats       map[string]bool
+	seq         int
 	svcLevelErr string
 	prevStar    *starRoute // the last catch-all route of the service being drawn (for sibling routes)
-	focus string // "", "views", "security", "dir" (what generated FILES depend on: several media types per endpoint): biases the draw towards the features a property is about
+	focus       string     // "", "views", "security", "dir" (what generated FILES depend on: several media types per endpoint): biases the draw towards the features a property is about
 }
 
 type starRoute struct {
@@ -660,6 +659,26 @@ func (g *dgen) method(svc *spec.Service, idx int) *spec.Method {
 				g.feat("result:collection-fixed-view:" + m.FixedView)
 			}
 		}
+		if !m.Collection && t.Draw("viewed-result-header", 4) == 0 {
+			// one primitive attribute that EVERY view of the result type contains (goa requires that) travels in a
+			// response header (an ETag, a revision): it is then no part of the body for THIS method - other methods
+			// returning the type keep it there
+			for _, f := range u.Attr.Type.Fields {
+				inAll := true
+				for _, v := range u.Views {
+					has := false
+					for _, fn := range v.Fields {
+						has = has || fn == f.Name
+					}
+					inAll = inAll && has
+				}
+				if k := f.Type.Kind; inAll && (k == spec.String || k == spec.Int || k == spec.Int64 || k == spec.UInt32) && f.Val == nil && !f.HasDef {
+					m.Responses[0].Headers = map[string]string{f.Name: "X-V-" + strings.ReplaceAll(f.Name, "_", "-")}
+					g.feat("views:header-mapped-attribute")
+					break
+				}
+			}
+		}
 	} else if t.Draw("result-not-an-object", 8) == 0 {
 		m.Result = g.nonObject("result")
 		m.Responses = []*spec.Response{{Status: []int{200, 201, 202}[t.Pick("status", 4, 1, 1)]}}
@@ -1026,7 +1045,6 @@ func (g *dgen) showcase() {
 	g.feat("dir:showcase")
 }
 
-
 // ---------------------------------------------------------------------------
 // security
 // ---------------------------------------------------------------------------
@@ -1252,7 +1270,6 @@ func (g *dgen) secure(svc *spec.Service, m *spec.Method, path *string) {
 		}
 	}
 }
-
 
 func (g *dgen) schemeOfKind(k string) *spec.Scheme {
 	for _, s := range g.d.Schemes {
